@@ -2,7 +2,7 @@
    range.  Only the property theorems, each closed by [exact]; proofs live in
    Midi/MidiProofs.v, the model in Midi/MidiModel.v, the Spec in Midi/MidiSpec.v. *)
 From Coq Require Import List ZArith QArith.
-From RtoscV Require Import Midi.MidiModel Midi.MidiSpec Midi.MidiProofs Midi.MidiFloat Midi.MidiProto Midi.MidiNrt Midi.MidiSilent Midi.MidiInv Midi.MidiRefine Midi.MidiRound Midi.MidiValues Midi.MidiCapacity Midi.MidiCross Midi.MidiRegress.
+From RtoscV Require Import Midi.MidiModel Midi.MidiSpec Midi.MidiProofs Midi.MidiFloat Midi.MidiProto Midi.MidiNrt Midi.MidiSilent Midi.MidiInv Midi.MidiRefine Midi.MidiRound Midi.MidiValues Midi.MidiCapacity Midi.MidiCross Midi.MidiRegress Midi.MidiHandshake.
 Import ListNotations.
 Local Open Scope Z_scope.
 
@@ -104,8 +104,10 @@ Proof. exact cb_monotone_7bit. Qed.
    midi-use-CC <id> that reaches the non-realtime side finds a queued address
    (the oldest: useFreeID takes the head) and a controller that occurs in no
    entry of the current snapshot - so it is never given a second address.
-   Full statement (all histories): open; it was false before the D19 fix
-   (C20_d19_regress), the tie and the Spec oracle cover crossing histories. *)
+   Without nocross: "no controller twice" and "never a second address" hold
+   for all histories (C20_learn_once); "finds a queued address" does not (after
+   a crossing clear() a midi-use-CC may find none: it is then answered with the
+   unchanged mapping, MidiCross.clear_cross_survives). *)
 Theorem C20_nocross_learn_partial : forall ports evs tr fin U,
   (length U <= 32)%nat -> incl (ccids evs) U -> Forall (fun x => 0 <= x) (ccids evs) ->
   run ports world0 evs = (tr, fin) -> nocross evs tr = true ->
@@ -119,23 +121,33 @@ Theorem C20_nocross_learn_nonvacuous :
     assigned_targets 5 tr = [(1, true)] /\ assigned_targets 6 tr = [(1, false)].
 Proof. exact nocross_fresh_nonvacuous. Qed.
 
-(* What the classifier of the run-time check rests on.  In a nocross history
-   (<= 32 controllers) the realtime side's pending ring (pq_rep: its slots from
-   pos_r on, psize of them) holds exactly the controllers the records imply
-   (pending_of, MidiSpec: offered controllers enter at the back, every
-   delivered midi-bind removes the front; `pending_before` of the plug-in,
-   compared with the model's value on every generated history), each once, and
-   they are: the controllers whose answering bind is on its way, then those
-   whose midi-use-CC is on its way - i.e. the controllers whose answer is
-   outstanding.  The class bind-crosses-use-cc is "this fails for the
-   controller concerned" (it is pending with no answer outstanding, or not
-   pending with an answer outstanding). *)
-Theorem C20_nocross_pending_partial : forall ports evs tr w U,
+(* FULL (no side condition on the history - the two halves may exchange their
+   messages in every order, binds of map / unMap / clear crossing offers
+   included; at most 32 distinct controllers = the pending ring's capacity):
+   at every event (fresh_run0, MidiHandshake) no snapshot on either side holds
+   a controller twice, and each midi-use-CC <id> that reaches the non-realtime
+   side is for a controller that occurs in no entry of the current snapshot -
+   it is never given a second address.  This is D19's negation; it was false
+   before the fix (C20_d19_regress). *)
+Theorem C20_learn_once : forall ports evs U,
   (length U <= 32)%nat -> incl (ccids evs) U -> Forall (fun x => 0 <= x) (ccids evs) ->
-  run ports world0 evs = (tr, Some w) -> nocross evs tr = true ->
+  fresh_run0 ports world0 evs.
+Proof. exact learn_once. Qed.
+
+(* FULL: after every history that runs to its end the realtime side's pending
+   ring (pq_rep: its slots from pos_r on, psize of them) holds exactly the
+   controllers the records imply (pending_of, MidiSpec: offered controllers
+   enter at the back, every delivered answering bind removes the front;
+   `pending_before` of the plug-in, compared with the model's value and with
+   the real ring on every generated history), each once, and they are: the
+   controllers whose answering bind is on its way, then those whose
+   midi-use-CC is on its way - the controllers whose answer is outstanding. *)
+Theorem C20_pending_exact : forall ports evs tr w U,
+  (length U <= 32)%nat -> incl (ccids evs) U -> Forall (fun x => 0 <= x) (ccids evs) ->
+  run ports world0 evs = (tr, Some w) ->
   pq_rep (pending (wr w)) (pending_of evs tr) /\ NoDup (pending_of evs tr) /\
   exists A, pending_of evs tr = A ++ chN w /\ (length A <= length (chR w))%nat.
-Proof. exact nocross_pending. Qed.
+Proof. exact pending_exact. Qed.
 
 (* a history admitted by nocross and not by the earlier side condition: the
    bind of unMap p1 is sent while controller 5 is pending (its answer is ahead
